@@ -11,3 +11,4 @@ import Gomjml.Props.C19
 #print axioms Gomjml.Props.C19.C19_scan_untargeted_identity
 #print axioms Gomjml.Props.C19.C19_table_is_spec
 #print axioms Gomjml.Props.C19.C19_lone_class_only
+#print axioms Gomjml.Props.C19.C19_table_entries
